@@ -91,8 +91,11 @@ package rpc
 //@   modifies nothing
 //@   ensures r != nil
 
-// handleCall (PARTIAL): every error it annotates is an error (errors.Annotate panics on nil).
+// handleCall (PARTIAL): every error it annotates is an error (errors.Annotate panics on nil); the
+// connection mutex and the sender lock are released on every return.
 //@ func Conn.handleCall -> err
-//@   props C08
-//@   partial pre:annotater.errorf
-//@   requires c != nil
+//@   props C08 C09
+//@   locktypestate
+//@   partial lock post pre:annotater.errorf pre:Conn.tryLockSender pre:Conn.lockSender pre:Conn.unlockSender
+//@   requires c != nil && nolocks() && !sending(c)
+//@   ensures sender: !sending(c)
